@@ -2115,7 +2115,7 @@ def read_lines(path_or_source, *, include=False, include_dirs=None):
         log.info('reading file: {}'.format(os.path.abspath(path_or_source)))
         # exceptions here will be caught by the recursive parent
         path = path_or_source
-        with open(path) as f:
+        with open(path, encoding='utf-8') as f:
             source = f.read()
     else:
         path = '<string>'
